@@ -2,19 +2,22 @@
   C05, tie A — obligations over the facts regenerated from the Go source on every run
   (lean/Golib/Gen/C05.lean, written by xlate/c05).
 
-  * constants: the pack type codes of the eight packs, the frame's source and version bytes, the
-    header marker, the hit-map length, the reserved event keys, the 256 hash-table constants — each
-    compared with the constant of the *reference* (Golib.Wire.Reference / Hash), not with a copy;
-  * write skeletons: for every `Write` method involved (frame header, common header, the eight bodies,
-    the helpers of the counter pack) the ordered list of stream writes with their arguments, local names
-    made positional.  They are compared with the expected skeletons below, which were checked once,
-    by hand and by script, against the field order of the reference encoder.  A dropped, added, reordered
-    or retargeted write changes the regenerated skeleton and the `decide` fails; renaming a local or
-    reordering statements that do not write does not.
+  * constants: the pack type codes of the eight packs, the frame's source and version bytes, the header
+    marker, the hit-map length, the reserved event keys, the 256 hash-table constants — each compared with the
+    constant of the *reference* (Golib.Wire.Reference / Hash), not with a copy;
+  * interpreted write steps (Golib/Wire/Steps.lean gives them a meaning): for the common header, the frame
+    functions (WriteIntBytes, WriteHeader, WriteOneWayHeader, makeData) and the eight `Write` methods with the
+    bodies of their if / for statements — and, in C05GenCounter.lean, the counter pack's helpers and sections —
+    theorems `…_is_reference`: for all field values the regenerated steps mean exactly the reference encoder;
+  * the hash: the loop body of `Hash64` transcribed as an expression, proved to be the reference step, and the
+    whole function (init, loop over all bytes, final xor, return conversion) proved to be `hash64`;
+  * one golden skeleton is left (LogSinkPack.ResetTagHash writes only to a side buffer).
 -/
 import Golib.Wire.Counter
 import Golib.Wire.Steps
 import Golib.Gen.C05
+
+set_option linter.unusedSimpArgs false
 
 namespace C05Gen
 open Wire Prim
@@ -49,622 +52,353 @@ theorem event_keys :
       [("ESCALATION_KEY", keyEsca), ("UUID_KEY", keyUuid), ("STATUS_KEY", keyStatus), ("OTYPE_KEY", keyOtype)] := by
   decide
 
-/-! ### expected write skeletons -/
-
-def exp_makeData : List (String × String) := [
-  ("WriteShort", "_L2. GetPackType()"),
-  ("Write", "_L1"),
-  ("if", "_L3. License != \"\""),
-  ("WriteHeader", "netSrcAgentOneway, netSrcAgentVersion, _L2. GetPCODE(), whash.Hash64Str(_L3.License)"),
-  ("else", ""),
-  ("WriteHeader", "netSrcAgentOneway, netSrcAgentVersion, _L2. GetPCODE(), whash.Hash64Str(this.License)"),
-  ("end", "")]
-
-def exp_WriteHeader : List (String × String) := [
-  ("WriteByte", "_L0"),
-  ("WriteByte", "_L1"),
-  ("WriteLong", "_L2"),
-  ("WriteLong", "_L3"),
-  ("WriteIntBytes", "_L4")]
-
-def exp_WriteOneWayHeader : List (String × String) := [
-  ("WriteByte", "_L0"),
-  ("WriteByte", "_L1"),
-  ("WriteLong", "_L2"),
-  ("WriteLong", "_L3"),
-  ("WriteIntBytes", "_L4")]
-
-def exp_WriteIntBytes : List (String × String) := [
-  ("if", "_L0 == nil || len(_L0) == 0"),
-  ("WriteInt", "0"),
-  ("else", ""),
-  ("WriteInt", "int32(len(_L0))"),
-  ("WriteBytes", "_L0"),
-  ("end", "")]
-
-def exp_Hash64 : List (String × String) := []
-
-def exp_Hash64Str : List (String × String) := []
-
-def exp_AbstractPack : List (String × String) := [
-  ("if", "(this.Okind | this.Onode) == 0"),
-  ("WriteDecimal", "this.Pcode"),
-  ("WriteInt", "this.Oid"),
-  ("WriteLong", "this.Time"),
-  ("else", ""),
-  ("WriteByte", "9"),
-  ("WriteDecimal", "this.Pcode"),
-  ("WriteInt", "this.Oid"),
-  ("WriteInt", "this.Okind"),
-  ("WriteInt", "this.Onode"),
-  ("WriteLong", "this.Time"),
-  ("end", "")]
-
-def exp_TagCountPack : List (String × String) := [
-  ("this.AbstractPack.Write", "_L0"),
-  ("WriteByte", "0"),
-  ("WriteText", "this.Category"),
-  ("if", "this.tagHash == 0 && this.Tags.Size() > 0"),
-  ("WriteValue", "_L1, this.Tags"),
-  ("WriteDecimal", "this.tagHash"),
-  ("WriteBytes", "_L2"),
-  ("else", ""),
-  ("WriteDecimal", "this.tagHash"),
-  ("WriteValue", "_L0, this.Tags"),
-  ("end", ""),
-  ("WriteValue", "_L0, this.Data")]
-
-def exp_LogSinkPack : List (String × String) := [
-  ("this.AbstractPack.Write", "_L0"),
-  ("WriteByte", "0"),
-  ("WriteText", "this.Category"),
-  ("if", "this.TagHash == 0 && this.Tags.Size() > 0"),
-  ("WriteDecimal", "this.TagHash"),
-  ("WriteBytes", "_L1"),
-  ("else", ""),
-  ("WriteDecimal", "this.TagHash"),
-  ("WriteMapValue", "_L0, this.Tags"),
-  ("end", ""),
-  ("WriteDecimal", "this.Line"),
-  ("WriteText", "this.Content"),
-  ("if", "this.Fields != nil && this.Fields.Size() > 0"),
-  ("WriteBool", "true"),
-  ("WriteMapValue", "_L0, this.Fields"),
-  ("else", ""),
-  ("WriteBool", "false"),
-  ("end", "")]
-
-def exp_TextPack : List (String × String) := [
-  ("this.AbstractPack.Write", "_L0"),
-  ("WriteDecimal", "int64(len(this.records))"),
-  ("for", ""),
-  ("WriteByte", "_L1. Div"),
-  ("WriteInt", "_L1. Hash"),
-  ("WriteText", "_L1. Text"),
-  ("end", "")]
-
-def exp_ParamPack : List (String × String) := [
-  ("this.AbstractPack.Write", "_L0"),
-  ("WriteInt", "this.Id"),
-  ("WriteDecimal", "this.Request"),
-  ("WriteDecimal", "this.Response"),
-  ("WriteDecimal", "int64(this.table.Size())"),
-  ("for", ""),
-  ("WriteText", "_L2"),
-  ("WriteValue", "_L0, _L3"),
-  ("end", "")]
-
-def exp_EventPack : List (String × String) := [
-  ("this.AbstractPack.Write", "_L0"),
-  ("WriteByte", "this.Level"),
-  ("WriteText", "this.Title"),
-  ("WriteText", "this.Message"),
-  ("if", "this.Uuid != \"\""),
-  ("this.Attr.Put", "UUID_KEY, this.Uuid"),
-  ("end", ""),
-  ("if", "this.Escalation"),
-  ("this.Attr.Put", "ESCALATION_KEY, \"true\""),
-  ("else", ""),
-  ("this.Attr.Put", "ESCALATION_KEY, \"false\""),
-  ("end", ""),
-  ("this.Attr.Put", "STATUS_KEY, fmt.Sprintf(\"%d\", this.Status)"),
-  ("this.Attr.Put", "OTYPE_KEY, fmt.Sprintf(\"%d\", this.Otype)"),
-  ("WriteByte", "byte(_L1)"),
-  ("for", ""),
-  ("WriteText", "_L3. GetKey()"),
-  ("WriteText", "_L3. GetValue().(string)"),
-  ("end", "")]
-
-def exp_ZipPack : List (String × String) := [
-  ("this.AbstractPack.Write", "_L0"),
-  ("WriteByte", "this.Status"),
-  ("WriteDecimal", "int64(this.RecordCount)"),
-  ("WriteBlob", "this.Records")]
-
-def exp_HitMapPack1 : List (String × String) := [
-  ("this.AbstractPack.Write", "_L0"),
-  ("WriteByte", "1"),
-  ("for", ""),
-  ("WriteShort", "int16(this.Hit[_L1])"),
-  ("WriteShort", "int16(this.Error[_L1])"),
-  ("end", "")]
-
-def exp_CounterPack1 : List (String × String) := [
-  ("this.AbstractPack.Write", "_L0"),
-  ("WriteDecimal", "int64(this.Duration)"),
-  ("WriteDecimal", "int64(this.Cputime)"),
-  ("WriteDecimal", "this.HeapTot"),
-  ("WriteDecimal", "this.HeapUse"),
-  ("WriteDecimal", "this.HeapPerm"),
-  ("WriteDecimal", "int64(this.HeapPendingFinalization)"),
-  ("WriteDecimal", "int64(this.GcCount)"),
-  ("WriteDecimal", "int64(this.GcTime)"),
-  ("WriteDecimal", "int64(this.ServiceCount)"),
-  ("WriteDecimal", "int64(this.ServiceError)"),
-  ("WriteDecimal", "int64(this.ServiceTime)"),
-  ("WriteDecimal", "int64(this.SqlCount)"),
-  ("WriteDecimal", "int64(this.SqlError)"),
-  ("WriteDecimal", "int64(this.SqlTime)"),
-  ("WriteDecimal", "int64(this.SqlFetchCount)"),
-  ("WriteDecimal", "int64(this.SqlFetchTime)"),
-  ("WriteDecimal", "int64(this.HttpcCount)"),
-  ("WriteDecimal", "int64(this.HttpcError)"),
-  ("WriteDecimal", "int64(this.HttpcTime)"),
-  ("WriteDecimal", "int64(this.ActSvcCount)"),
-  ("writeShortArray", "_L1, this.ActSvcSlice"),
-  ("WriteFloat", "this.Cpu"),
-  ("WriteFloat", "this.CpuSys"),
-  ("WriteFloat", "this.CpuUsr"),
-  ("WriteFloat", "this.CpuWait"),
-  ("WriteFloat", "this.CpuSteal"),
-  ("WriteFloat", "this.CpuIrq"),
-  ("WriteFloat", "this.CpuProc"),
-  ("WriteDecimal", "int64(this.CpuCores)"),
-  ("WriteFloat", "this.Mem"),
-  ("WriteFloat", "this.Swap"),
-  ("WriteFloat", "this.Disk"),
-  ("WriteDecimal", "int64(this.ThreadTotalStarted)"),
-  ("WriteDecimal", "int64(this.ThreadCount)"),
-  ("WriteDecimal", "int64(this.ThreadDaemon)"),
-  ("WriteDecimal", "int64(this.ThreadPeakCount)"),
-  ("if", "this.DbNumActive == nil || this.DbNumIdle == nil"),
-  ("WriteByte", "0"),
-  ("else", ""),
-  ("WriteByte", "1"),
-  ("this.DbNumActive.ToBytes", "_L1"),
-  ("this.DbNumIdle.ToBytes", "_L1"),
-  ("end", ""),
-  ("if", "this.Netstat == nil"),
-  ("WriteByte", "0"),
-  ("else", ""),
-  ("WriteByte", "1"),
-  ("WriteDecimal", "int64(this.Netstat.Est)"),
-  ("WriteDecimal", "int64(this.Netstat.FinW)"),
-  ("WriteDecimal", "int64(this.Netstat.CloW)"),
-  ("WriteDecimal", "int64(this.Netstat.TimW)"),
-  ("end", ""),
-  ("WriteDecimal", "int64(this.ProcFd)"),
-  ("WriteFloat", "this.Tps"),
-  ("WriteDecimal", "int64(this.RespTime)"),
-  ("WriteShort", "this.ApType"),
-  ("if", "this.Websocket == nil"),
-  ("WriteByte", "0"),
-  ("else", ""),
-  ("WriteByte", "1"),
-  ("WriteDecimal", "int64(this.Websocket.Count)"),
-  ("WriteDecimal", "this.Websocket.In"),
-  ("WriteDecimal", "this.Websocket.Out"),
-  ("end", ""),
-  ("WriteDecimal", "int64(this.Starttime)"),
-  ("WriteDecimal", "int64(this.PackDropped)"),
-  ("WriteDecimal", "int64(this.HostIp)"),
-  ("WriteDecimal", "int64(this.MacHash)"),
-  ("if", "this.Extra == nil"),
-  ("WriteByte", "0"),
-  ("else", ""),
-  ("WriteByte", "1"),
-  ("WriteValue", "_L1, this.Extra"),
-  ("end", ""),
-  ("WriteInt", "this.Pid"),
-  ("WriteByte", "byte(_L2)"),
-  ("for", ""),
-  ("WriteShort", "this.ActiveStat[_L3]"),
-  ("end", ""),
-  ("WriteDecimal", "int64(this.ThreadPoolActiveCount)"),
-  ("WriteDecimal", "int64(this.ThreadPoolQueueSize)"),
-  ("writeTxcallerOidMeter", "_L1"),
-  ("writeSqlMeter", "_L1"),
-  ("writeHttpcMeter", "_L1"),
-  ("writeTxcallerGroupMeter", "_L1"),
-  ("WriteDecimal", "0"),
-  ("writeTxcallerOther", "_L1"),
-  ("WriteDecimal", "int64(this.ContainerKey)"),
-  ("WriteFloat", "this.TxDbcTime"),
-  ("WriteFloat", "this.TxSqlTime"),
-  ("WriteFloat", "this.TxHttpcTime"),
-  ("WriteDecimal", "int64(this.ApdexSatisfied)"),
-  ("WriteDecimal", "int64(this.ApdexTolerated)"),
-  ("WriteFloat", "this.ArrivalRate"),
-  ("WriteDecimal", "int64(this.GcOldgenCount)"),
-  ("WriteByte", "this.Version"),
-  ("WriteDecimal", "this.HeapMax"),
-  ("WriteDecimal", "int64(this.ProcFdMax)"),
-  ("WriteFloat", "this.Metering"),
-  ("WriteDecimal", "int64(this.ApdexTotal)"),
-  ("writeTxcallerPOidMeter", "_L1"),
-  ("WriteDecimal", "int64(this.Resp90)"),
-  ("WriteDecimal", "int64(this.Resp95)"),
-  ("WriteDecimal", "this.TimeSqrSum"),
-  ("WriteBlob", "_L1. ToByteArray()")]
-
-def exp_CounterPack1_writeShortArray : List (String × String) := [
-  ("if", "_L0 == nil"),
-  ("WriteByte", "0"),
-  ("else", ""),
-  ("WriteByte", "byte(len(_L0))"),
-  ("for", ""),
-  ("WriteShort", "_L0[_L2]"),
-  ("end", ""),
-  ("end", "")]
-
-def exp_CounterPack1_writeTxcallerOther : List (String × String) := [
-  ("if", "this.TxcallerUnknown != nil"),
-  ("WriteByte", "2"),
-  ("WriteDecimal", "this.TxcallerUnknown.Time"),
-  ("WriteDecimal", "int64(this.TxcallerUnknown.Count)"),
-  ("WriteDecimal", "int64(this.TxcallerUnknown.Error)"),
-  ("WriteDecimal", "int64(this.TxcallerUnknown.Actx)"),
-  ("else", ""),
-  ("WriteByte", "0"),
-  ("end", "")]
-
-def exp_CounterPack1_writeTxcallerOidMeter : List (String × String) := [
-  ("if", "this.TxcallerOidMeter == nil"),
-  ("WriteDecimal", "0"),
-  ("else", ""),
-  ("WriteByte", "9"),
-  ("WriteDecimal", "int64(this.TxcallerOidMeter.Size())"),
-  ("for", ""),
-  ("WriteInt", "_L2. GetKey()"),
-  ("WriteDecimal", "_L3. Time"),
-  ("WriteDecimal", "int64(_L3.Count)"),
-  ("WriteDecimal", "int64(_L3.Error)"),
-  ("WriteDecimal", "int64(_L3.Actx)"),
-  ("end", ""),
-  ("end", "")]
-
-def exp_CounterPack1_writeSqlMeter : List (String × String) := [
-  ("if", "this.SqlMeter == nil"),
-  ("WriteDecimal", "0"),
-  ("else", ""),
-  ("WriteByte", "9"),
-  ("WriteDecimal", "int64(this.SqlMeter.Size())"),
-  ("for", ""),
-  ("WriteInt", "_L2. GetKey()"),
-  ("WriteDecimal", "_L3. Time"),
-  ("WriteDecimal", "int64(_L3.Count)"),
-  ("WriteDecimal", "int64(_L3.Error)"),
-  ("WriteDecimal", "int64(_L3.Actx)"),
-  ("WriteDecimal", "int64(_L3.FetchCount)"),
-  ("WriteDecimal", "int64(_L3.FetchTime)"),
-  ("end", ""),
-  ("end", "")]
-
-def exp_CounterPack1_writeHttpcMeter : List (String × String) := [
-  ("if", "this.HttpcMeter == nil"),
-  ("WriteDecimal", "0"),
-  ("else", ""),
-  ("WriteByte", "9"),
-  ("WriteDecimal", "int64(this.HttpcMeter.Size())"),
-  ("for", ""),
-  ("WriteInt", "_L2. GetKey()"),
-  ("WriteDecimal", "_L3. Time"),
-  ("WriteDecimal", "int64(_L3.Count)"),
-  ("WriteDecimal", "int64(_L3.Error)"),
-  ("WriteDecimal", "int64(_L3.Actx)"),
-  ("end", ""),
-  ("end", "")]
-
-def exp_CounterPack1_writeTxcallerGroupMeter : List (String × String) := [
-  ("if", "this.TxcallerGroupMeter == nil"),
-  ("WriteDecimal", "0"),
-  ("else", ""),
-  ("WriteByte", "9"),
-  ("WriteDecimal", "int64(this.TxcallerGroupMeter.Size())"),
-  ("for", ""),
-  ("WriteDecimal", "_L2. GetKey().(*lang.PKIND).PCode"),
-  ("WriteDecimal", "int64(_L2.GetKey().(*lang.PKIND).OKind)"),
-  ("WriteDecimal", "_L3. Time"),
-  ("WriteDecimal", "int64(_L3.Count)"),
-  ("WriteDecimal", "int64(_L3.Error)"),
-  ("WriteDecimal", "int64(_L3.Actx)"),
-  ("end", ""),
-  ("end", "")]
-
-def exp_CounterPack1_writeTxcallerPOidMeter : List (String × String) := [
-  ("if", "this.TxcallerPOidMeter == nil"),
-  ("WriteDecimal", "0"),
-  ("else", ""),
-  ("WriteDecimal", "int64(this.TxcallerPOidMeter.Size())"),
-  ("for", ""),
-  ("WriteDecimal", "_L2. GetKey().(*lang.POID).PCode"),
-  ("WriteDecimal", "int64(_L2.GetKey().(*lang.POID).Oid)"),
-  ("WriteDecimal", "_L3. Time"),
-  ("WriteDecimal", "int64(_L3.Count)"),
-  ("WriteDecimal", "int64(_L3.Error)"),
-  ("writeShortArray", "_L0, _L3. Acts"),
-  ("WriteDecimal", "int64(_L3.Actx)"),
-  ("end", ""),
-  ("end", "")]
+/-! ### the one remaining golden skeleton (a function that writes only to a side buffer) -/
 
 def exp_LogSinkPack_ResetTagHash : List (String × String) := [
   ("WriteMapValue", "_L0, this.Tags")]
 
-def exp_IntIntMap_ToBytes : List (String × String) := [
-  ("WriteDecimal", "int64(this.Size())"),
-  ("for", ""),
-  ("WriteDecimal", "int64(_L2.GetKey())"),
-  ("WriteDecimal", "int64(_L2.GetValue())"),
-  ("end", "")]
-
-/-! ### the regenerated skeletons are the expected ones -/
-
-theorem skeleton_makeData : Gen.C05.skel_makeData = exp_makeData := by decide
-theorem skeleton_WriteHeader : Gen.C05.skel_WriteHeader = exp_WriteHeader := by decide
-theorem skeleton_WriteOneWayHeader : Gen.C05.skel_WriteOneWayHeader = exp_WriteOneWayHeader := by decide
-theorem skeleton_WriteIntBytes : Gen.C05.skel_WriteIntBytes = exp_WriteIntBytes := by decide
-theorem skeleton_Hash64 : Gen.C05.skel_Hash64 = exp_Hash64 := by decide
-theorem skeleton_Hash64Str : Gen.C05.skel_Hash64Str = exp_Hash64Str := by decide
-theorem skeleton_AbstractPack : Gen.C05.skel_AbstractPack = exp_AbstractPack := by decide
-theorem skeleton_TagCountPack : Gen.C05.skel_TagCountPack = exp_TagCountPack := by decide
-theorem skeleton_LogSinkPack : Gen.C05.skel_LogSinkPack = exp_LogSinkPack := by decide
-theorem skeleton_TextPack : Gen.C05.skel_TextPack = exp_TextPack := by decide
-theorem skeleton_ParamPack : Gen.C05.skel_ParamPack = exp_ParamPack := by decide
-theorem skeleton_EventPack : Gen.C05.skel_EventPack = exp_EventPack := by decide
-theorem skeleton_ZipPack : Gen.C05.skel_ZipPack = exp_ZipPack := by decide
-theorem skeleton_HitMapPack1 : Gen.C05.skel_HitMapPack1 = exp_HitMapPack1 := by decide
-theorem skeleton_CounterPack1 : Gen.C05.skel_CounterPack1 = exp_CounterPack1 := by decide
-theorem skeleton_CounterPack1_writeShortArray : Gen.C05.skel_CounterPack1_writeShortArray = exp_CounterPack1_writeShortArray := by decide
-theorem skeleton_CounterPack1_writeTxcallerOther : Gen.C05.skel_CounterPack1_writeTxcallerOther = exp_CounterPack1_writeTxcallerOther := by decide
-theorem skeleton_CounterPack1_writeTxcallerOidMeter : Gen.C05.skel_CounterPack1_writeTxcallerOidMeter = exp_CounterPack1_writeTxcallerOidMeter := by decide
-theorem skeleton_CounterPack1_writeSqlMeter : Gen.C05.skel_CounterPack1_writeSqlMeter = exp_CounterPack1_writeSqlMeter := by decide
-theorem skeleton_CounterPack1_writeHttpcMeter : Gen.C05.skel_CounterPack1_writeHttpcMeter = exp_CounterPack1_writeHttpcMeter := by decide
-theorem skeleton_CounterPack1_writeTxcallerGroupMeter : Gen.C05.skel_CounterPack1_writeTxcallerGroupMeter = exp_CounterPack1_writeTxcallerGroupMeter := by decide
-theorem skeleton_CounterPack1_writeTxcallerPOidMeter : Gen.C05.skel_CounterPack1_writeTxcallerPOidMeter = exp_CounterPack1_writeTxcallerPOidMeter := by decide
 theorem skeleton_LogSinkPack_ResetTagHash : Gen.C05.skel_LogSinkPack_ResetTagHash = exp_LogSinkPack_ResetTagHash := by decide
-theorem skeleton_IntIntMap_ToBytes : Gen.C05.skel_IntIntMap_ToBytes = exp_IntIntMap_ToBytes := by decide
 
 /-! ### the regenerated write steps mean the reference encoder, for all field values
 
-  `sem… p` says what each Go field holds in terms of the reference's pack `p` (the name correspondence
-  Go field ↔ reference field is the trusted part) and what each opaque section contributes (the
-  reference's encoder of that section; the inside of the sections is tied by the skeletons above and by
-  the harness). -/
+  `xlate/c05` transcribes every statement that writes — including the bodies of if / for statements and the
+  helper methods of the counter pack — into nested steps (Golib/Wire/Steps.lean).  A `Sem` says what each
+  written Go expression holds in terms of the reference's pack (the correspondence *Go expression ↔ reference
+  field* is the trusted part: a table of names), which reference predicate a condition is, and which
+  reference list a loop visits.  Every theorem below is for all field values.  Unknown methods, expressions,
+  conditions or loops evaluate to a poison byte / the empty collection, so an unrecognised shape fails the
+  obligation instead of being skipped. -/
 
-def noSec : String → Bytes := fun _ => poison
+def S0 : Sem := ⟨poison, fun _ => .none, fun _ => false, fun _ => [], fun _ => poison⟩
 
-def semHdr (h : Hdr) : Sem where
-  hdr := poison
-  env f := match f with
+theorem encI2_ofNat (ty : Nat) (h : ty < 65536) : encI 2 (ty : Int) = beN 2 ty := by
+  unfold encI toU
+  rw [modulus_2, Int.emod_eq_of_lt (by omega) (by omega)]
+  simp
+
+/-! #### common header -/
+
+def semHdr (h : Hdr) : Sem :=
+  { S0 with env := fun a => match a with
     | "Pcode" => .i h.pcode
     | "Oid" => .i h.oid
     | "Okind" => .i h.okind
     | "Onode" => .i h.onode
     | "Time" => .i h.time
-    | _ => .none
-  sec := noSec
-  other := noSec
+    | _ => .none }
 
 theorem header_writer_is_reference (h : Hdr) :
     Gen.C05.hdrCond = "(this.Okind | this.Onode) == 0" ∧
     run (semHdr h) Gen.C05.steps_hdrShort = encHdrShort h ∧
     run (semHdr h) Gen.C05.steps_hdrExt = encHdrExt h := by
   refine ⟨by decide, ?_, ?_⟩
-  · simp [Gen.C05.steps_hdrShort, run, interp, wr, semHdr, encHdrShort]
-  · simp [Gen.C05.steps_hdrExt, run, interp, wr, wrLit, semHdr, encHdrExt, hdrMarker]
+  · simp [Gen.C05.steps_hdrShort, run, interp, wr, semHdr, S0, encHdrShort]
+  · simp [Gen.C05.steps_hdrExt, run, interp, wr, wrLit, semHdr, S0, encHdrExt, hdrMarker]
 
-def semZip (p : Zip) : Sem where
-  hdr := encHdr p.hdr
-  env f := match f with
-    | "Status" => .n p.status
-    | "RecordCount" => .i p.recordCount
-    | "Records" => .b p.records
-    | _ => .none
-  sec := noSec
-  other := noSec
+/-! #### frame: DataOutputX.WriteIntBytes / WriteHeader / WriteOneWayHeader, OneWayTcpClient.makeData -/
+
+def semIntBytes (t : Bytes) : Sem :=
+  { S0 with
+    env := fun a => match a with
+      | "_L0" => .raw t
+      | "len(_L0)" => .i t.length
+      | _ => .none
+    cond := fun c => match c with
+      | "_L0 == nil || len(_L0) == 0" => decide (t = [])
+      | _ => false }
+
+/-- `WriteIntBytes(t)` = 4-byte length, then the bytes — in both branches of its test for emptiness -/
+theorem writeIntBytes_is_reference (t : Bytes) :
+    run (semIntBytes t) Gen.C05.steps_WriteIntBytes = wr "WriteIntBytes" (.raw t) := by
+  by_cases h : t = []
+  · subst h
+    simp [Gen.C05.steps_WriteIntBytes, run, interp, wr, wrLit, semIntBytes, S0]
+  · simp [Gen.C05.steps_WriteIntBytes, run, interp, wr, wrLit, semIntBytes, S0, h]
+
+def semWriteHeader (src ver : Nat) (pcode hash : Int) (t : Bytes) : Sem :=
+  { S0 with env := fun a => match a with
+    | "_L0" => .n src
+    | "_L1" => .n ver
+    | "_L2" => .i pcode
+    | "_L3" => .i hash
+    | "_L4" => .raw t
+    | _ => .none }
+
+/-- `WriteHeader(src, ver, pcode, hash)` writes src, ver, be8 pcode, be8 hash and then, through
+    `WriteIntBytes`, be4 |t| and t, where t is the saved previous content of the stream -/
+theorem writeHeader_is_reference (src ver : Nat) (pcode hash : Int) (t : Bytes) :
+    run (semWriteHeader src ver pcode hash t) Gen.C05.steps_WriteHeader = wrapHeader src ver pcode hash t ∧
+    run (semWriteHeader src ver pcode hash t) Gen.C05.steps_WriteOneWayHeader = wrapHeader src ver pcode hash t := by
+  constructor
+  · simp [Gen.C05.steps_WriteHeader, run, interp, wr, semWriteHeader, S0, wrapHeader]
+  · simp [Gen.C05.steps_WriteOneWayHeader, run, interp, wr, semWriteHeader, S0, wrapHeader]
+
+theorem wrapHeader_is_frame (pcode : Int) (license pl : Bytes) :
+    wrapHeader netSrcOneWay netSrcVersion pcode (hash64 license) pl = frame pcode license pl := by
+  simp [wrapHeader, frame, netSrcOneWay, netSrcVersion]
+
+/-- meaning of `makeData`: the pack type and the pack's own bytes are written, then one of two
+    `WriteHeader` calls wraps them -/
+def makeDataMeaning (S : Sem) (constN : String → Nat) (valI : String → Int) : List Step → Bytes
+  | [s1, s2, .ite c [.wrapHeader [a0, a1, a2, a3]] [.wrapHeader [b0, b1, b2, b3]]] =>
+    if S.cond c then wrapHeader (constN a0) (constN a1) (valI a2) (valI a3) (run S [s1, s2])
+    else wrapHeader (constN b0) (constN b1) (valI b2) (valI b3) (run S [s1, s2])
+  | _ => poison
+
+def semMakeData (ty : Nat) (body optLic : Bytes) : Sem :=
+  { S0 with
+    env := fun a => match a with
+      | "_L0.Pack.GetPackType()" => .i ty
+      | "_L0.Pack" => .raw body
+      | _ => .none
+    cond := fun c => match c with
+      | "_L1.License != \"\"" => decide (optLic ≠ [])
+      | _ => false }
+
+/-- the frame the client builds, for every pack type code, pack body, client license and per-send license:
+    source and version are the extracted constants, the project code is the pack's, the hash is `hash64` of
+    the per-send license when that is non-empty and of the client's license otherwise -/
+theorem makeData_is_reference (ty : Nat) (hty : ty < 65536) (pcode : Int) (body optLic clientLic : Bytes) :
+    makeDataMeaning (semMakeData ty body optLic)
+      (fun n => match n with
+        | "netSrcAgentOneway" => Gen.C05.netSrc
+        | "netSrcAgentVersion" => Gen.C05.netVer
+        | _ => 999)
+      (fun v => match v with
+        | "_L0.Pack.GetPCODE()" => pcode
+        | "whash.Hash64Str(_L1.License)" => hash64 optLic
+        | "whash.Hash64Str(this.License)" => hash64 clientLic
+        | _ => 0)
+      Gen.C05.steps_makeData
+    = frame pcode (if optLic ≠ [] then optLic else clientLic) (payload ty body) := by
+  have e := encI2_ofNat ty hty
+  by_cases h : optLic = []
+  · simp [Gen.C05.steps_makeData, makeDataMeaning, run, interp, wr, semMakeData, S0, h, Gen.C05.netSrc, Gen.C05.netVer,
+      ← wrapHeader_is_frame, netSrcOneWay, netSrcVersion, payload, e]
+  · simp [Gen.C05.steps_makeData, makeDataMeaning, run, interp, wr, semMakeData, S0, h, Gen.C05.netSrc, Gen.C05.netVer,
+      ← wrapHeader_is_frame, netSrcOneWay, netSrcVersion, payload, e]
+
+/-! #### the small bodies -/
+
+def semZip (p : Zip) : Sem :=
+  { S0 with
+    hdr := encHdr p.hdr
+    env := fun a => match a with
+      | "Status" => .n p.status
+      | "RecordCount" => .i p.recordCount
+      | "Records" => .b p.records
+      | _ => .none }
 
 theorem zip_writer_is_reference (p : Zip) : run (semZip p) Gen.C05.steps_ZipPack = encZip p := by
-  simp [Gen.C05.steps_ZipPack, run, interp, wr, semZip, encZip]
+  simp [Gen.C05.steps_ZipPack, run, interp, wr, semZip, S0, encZip]
 
-def semTagCount (p : TagCount) : Sem where
-  hdr := encHdr p.hdr
-  env f := match f with
-    | "Category" => .b p.category
-    | "Data" => .m p.data
-    | _ => .none
-  sec s := match s with
-    | "if:this.tagHash == 0 && this.Tags.Size() > 0" => encDecimal (effTagHash p.tagHash p.tags) ++ encMap p.tags
-    | _ => poison
-  other := noSec
+/-- tag-count pack.  Trusted in the `then` branch: the side buffer holds what was written to it (the encoded
+    tag map) and `tagHash` holds `Hash64` of it after the assignment — the harness compares both on every pack. -/
+def semTagCount (p : TagCount) : Sem :=
+  { S0 with
+    hdr := encHdr p.hdr
+    env := fun a => match a with
+      | "Category" => .b p.category
+      | "tagHash" => .i (effTagHash p.tagHash p.tags)
+      | "Tags" => .m p.tags
+      | "Data" => .m p.data
+      | "$side.ToByteArray()" => .raw (encMap p.tags)
+      | _ => .none
+    cond := fun c => match c with
+      | "this.tagHash == 0 && this.Tags.Size() > 0" => decide (p.tagHash = 0 ∧ p.tags ≠ [])
+      | _ => false }
 
 theorem tagcount_writer_is_reference (p : TagCount) :
     run (semTagCount p) Gen.C05.steps_TagCountPack = encTagCount p := by
-  simp [Gen.C05.steps_TagCountPack, run, interp, wr, wrLit, semTagCount, encTagCount, encTagCountRaw, TagCount.norm]
+  by_cases h : p.tagHash = 0 ∧ p.tags ≠ []
+  · simp [Gen.C05.steps_TagCountPack, run, interp, wr, wrLit, semTagCount, S0, encTagCount, encTagCountRaw,
+      TagCount.norm, h]
+  · simp [Gen.C05.steps_TagCountPack, run, interp, wr, wrLit, semTagCount, S0, encTagCount, encTagCountRaw,
+      TagCount.norm, h]
 
-def semLogSink (p : LogSink) : Sem where
-  hdr := encHdr p.hdr
-  env f := match f with
-    | "Category" => .b p.category
-    | "Line" => .i p.line
-    | "Content" => .b p.content
-    | _ => .none
-  sec s := match s with
-    | "if:this.TagHash == 0 && this.Tags.Size() > 0" => encDecimal (effTagHash p.tagHash p.tags) ++ encMap p.tags
-    | "if:this.Fields != nil && this.Fields.Size() > 0" => encOptMap p.fields
-    | _ => poison
-  other := noSec
+def semLogSink (p : LogSink) : Sem :=
+  { S0 with
+    hdr := encHdr p.hdr
+    env := fun a => match a with
+      | "Category" => .b p.category
+      | "TagHash" => .i (effTagHash p.tagHash p.tags)
+      | "Tags" => .m p.tags
+      | "ResetTagHash()" => .raw (encMap p.tags)
+      | "Line" => .i p.line
+      | "Content" => .b p.content
+      | "Fields" => .m p.fields
+      | _ => .none
+    cond := fun c => match c with
+      | "this.TagHash == 0 && this.Tags.Size() > 0" => decide (p.tagHash = 0 ∧ p.tags ≠ [])
+      | "this.Fields != nil && this.Fields.Size() > 0" => decide (p.fields ≠ [])
+      | _ => false }
 
 theorem logsink_writer_is_reference (p : LogSink) :
     run (semLogSink p) Gen.C05.steps_LogSinkPack = encLogSink p := by
-  simp [Gen.C05.steps_LogSinkPack, run, interp, wr, wrLit, semLogSink, encLogSink, encLogSinkRaw, LogSink.norm]
+  have hf : (if p.fields ≠ [] then [1] ++ encMap p.fields else [0]) = encOptMap p.fields := by
+    cases hfs : p.fields <;> simp [encOptMap, optOfMap, encOption]
+  by_cases h : p.tagHash = 0 ∧ p.tags ≠ [] <;> by_cases h2 : p.fields = [] <;>
+    simp [Gen.C05.steps_LogSinkPack, run, interp, wr, wrLit, semLogSink, S0, encLogSink, encLogSinkRaw,
+      LogSink.norm, h, h2, encOptMap, optOfMap, encOption] <;>
+    (cases hfs : p.fields <;> simp_all [encOptMap, optOfMap, encOption])
 
-def semText (p : TextP) : Sem where
-  hdr := encHdr p.hdr
-  env _ := .none
-  sec s := match s with
-    | "for:records" => encMany encTextRec p.records
-    | _ => poison
-  other s := match s with
-    | "WriteDecimal(int64(len(this.records)))" => encDecimal p.records.length
-    | _ => poison
+def semText (p : TextP) : Sem :=
+  { S0 with
+    hdr := encHdr p.hdr
+    env := fun a => match a with
+      | "len(this.records)" => .i p.records.length
+      | _ => .none
+    coll := fun n => match n with
+      | "for _L0 := 0; _L0 < len(this.records); _L0++" => p.records.map (fun r a => match a with
+          | "records[_L0].Div" => .n r.div
+          | "records[_L0].Hash" => .i r.hash
+          | "records[_L0].Text" => .b r.text
+          | _ => .none)
+      | _ => [] }
 
 theorem text_writer_is_reference (p : TextP) : run (semText p) Gen.C05.steps_TextPack = encTextP p := by
-  simp [Gen.C05.steps_TextPack, run, interp, semText, encTextP]
-
-def semParam (p : Param) : Sem where
-  hdr := encHdr p.hdr
-  env f := match f with
-    | "Id" => .i p.id
-    | "Request" => .i p.request
-    | "Response" => .i p.response
-    | _ => .none
-  sec s := match s with
-    | "for:table.Get" => encMany encParamEntry p.table
-    | _ => poison
-  other s := match s with
-    | "WriteDecimal(int64(this.table.Size()))" => encDecimal p.table.length
-    | _ => poison
-
-theorem param_writer_is_reference (p : Param) : run (semParam p) Gen.C05.steps_ParamPack = encParam p := by
-  simp [Gen.C05.steps_ParamPack, run, interp, wr, semParam, encParam]
-
-/-- the event: the four `Attr.Put` statements fold uuid / escalation / status / type into the attribute
-    map (no bytes of their own; their order is tied by `skeleton_EventPack` and the harness); the count
-    byte and the loop write the folded map -/
-def semEvent (e : Event) : Sem where
-  hdr := encHdr e.hdr
-  env f := match f with
-    | "Level" => .n e.level
-    | "Title" => .b e.title
-    | "Message" => .b e.message
-    | _ => .none
-  sec s := match s with
-    | "if:this.Uuid != \"\"" => []
-    | "if:this.Escalation" => []
-    | "for:#0" => encMany encAttrEntry (foldAttrs e)
-    | _ => poison
-  other s := match s with
-    | "this.Attr.Put(STATUS_KEY, fmt.Sprintf(\"%d\", this.Status))" => []
-    | "this.Attr.Put(OTYPE_KEY, fmt.Sprintf(\"%d\", this.Otype))" => []
-    | "WriteByte(byte(_L0))" => [(foldAttrs e).length % 256]
-    | _ => poison
-
-theorem event_writer_is_reference (e : Event) : run (semEvent e) Gen.C05.steps_EventPack = encEvent e := by
-  simp [Gen.C05.steps_EventPack, run, interp, wr, semEvent, encEvent, encEventWire, Event.toWire]
-
-def semHitMap (p : HitMap) : Sem where
-  hdr := encHdr p.hdr
-  env _ := .none
-  sec s := match s with
-    | "for:Hit" => encCells (p.hit.take hitMapLength) (p.error.take hitMapLength)
-    | _ => poison
-  other := noSec
-
-theorem hitmap_writer_is_reference (p : HitMap) : run (semHitMap p) Gen.C05.steps_HitMapPack1 = encHitMap p := by
-  simp [Gen.C05.steps_HitMapPack1, run, interp, wrLit, semHitMap, encHitMap]
-
-def semCounter (p : Counter) : Sem where
-  hdr := encHdr p.hdr
-  env f := match f with
-    | "Duration" => .i p.duration
-    | "Cputime" => .i p.cputime
-    | "HeapTot" => .i p.heapTot
-    | "HeapUse" => .i p.heapUse
-    | "HeapPerm" => .i p.heapPerm
-    | "HeapPendingFinalization" => .i p.heapPendingFinalization
-    | "GcCount" => .i p.gcCount
-    | "GcTime" => .i p.gcTime
-    | "ServiceCount" => .i p.serviceCount
-    | "ServiceError" => .i p.serviceError
-    | "ServiceTime" => .i p.serviceTime
-    | "SqlCount" => .i p.sqlCount
-    | "SqlError" => .i p.sqlError
-    | "SqlTime" => .i p.sqlTime
-    | "SqlFetchCount" => .i p.sqlFetchCount
-    | "SqlFetchTime" => .i p.sqlFetchTime
-    | "HttpcCount" => .i p.httpcCount
-    | "HttpcError" => .i p.httpcError
-    | "HttpcTime" => .i p.httpcTime
-    | "ActSvcCount" => .i p.actSvcCount
-    | "ActSvcSlice" => .is p.actSvcSlice
-    | "Cpu" => .n p.cpu
-    | "CpuSys" => .n p.cpuSys
-    | "CpuUsr" => .n p.cpuUsr
-    | "CpuWait" => .n p.cpuWait
-    | "CpuSteal" => .n p.cpuSteal
-    | "CpuIrq" => .n p.cpuIrq
-    | "CpuProc" => .n p.cpuProc
-    | "CpuCores" => .i p.cpuCores
-    | "Mem" => .n p.mem
-    | "Swap" => .n p.swap
-    | "Disk" => .n p.disk
-    | "ThreadTotalStarted" => .i p.threadTotalStarted
-    | "ThreadCount" => .i p.threadCount
-    | "ThreadDaemon" => .i p.threadDaemon
-    | "ThreadPeakCount" => .i p.threadPeakCount
-    | "ProcFd" => .i p.procFd
-    | "Tps" => .n p.tps
-    | "RespTime" => .i p.respTime
-    | "ApType" => .i p.apType
-    | "Starttime" => .i p.starttime
-    | "PackDropped" => .i p.packDropped
-    | "HostIp" => .i p.hostIp
-    | "MacHash" => .i p.macHash
-    | "Pid" => .i p.pid
-    | "ActiveStat" => .is p.activeStat
-    | "ThreadPoolActiveCount" => .i p.threadPoolActiveCount
-    | "ThreadPoolQueueSize" => .i p.threadPoolQueueSize
-    | "ContainerKey" => .i p.containerKey
-    | "TxDbcTime" => .n p.txDbcTime
-    | "TxSqlTime" => .n p.txSqlTime
-    | "TxHttpcTime" => .n p.txHttpcTime
-    | "ApdexSatisfied" => .i p.apdexSatisfied
-    | "ApdexTolerated" => .i p.apdexTolerated
-    | "ArrivalRate" => .n p.arrivalRate
-    | "GcOldgenCount" => .i p.gcOldgenCount
-    | "Version" => .n p.version
-    | "HeapMax" => .i p.heapMax
-    | "ProcFdMax" => .i p.procFdMax
-    | "Metering" => .n p.metering
-    | "ApdexTotal" => .i p.apdexTotal
-    | "Resp90" => .i p.resp90
-    | "Resp95" => .i p.resp95
-    | "TimeSqrSum" => .i p.timeSqrSum
-    | _ => .none
-  sec s := match s with
-    | "if:this.DbNumActive == nil || this.DbNumIdle == nil" => encOption 1 encDbPool p.dbPool
-    | "if:this.Netstat == nil" => encOption 1 encNetStat p.netstat
-    | "if:this.Websocket == nil" => encOption 1 encWebSocket p.websocket
-    | "if:this.Extra == nil" => encOption 1 encIntMap p.extra
-    | "for:ActiveStat" => encMany (encI 2) p.activeStat
-    | "writeTxcallerOidMeter" => encOption 9 (encCounted encOidEntry) p.oidMeter
-    | "writeSqlMeter" => encOption 9 (encCounted encSqlEntry) p.sqlMeter
-    | "writeHttpcMeter" => encOption 9 (encCounted encOidEntry) p.httpcMeter
-    | "writeTxcallerGroupMeter" => encOption 9 (encCounted encGroupEntry) p.groupMeter
-    | "writeTxcallerOther" => encOption 2 encUnknown p.unknown
-    | "writeTxcallerPOidMeter" => encCounted encPoidEntry p.poidMeter
-    | _ => poison
-  other s := match s with
-    | "WriteByte(byte(_L0))" => [p.activeStat.length % 256]
-    | _ => poison
-
-/-- the 60-odd scalar fields of the counter pack are written with the method and at the position the
-    reference has them, the sections sit where the reference has them, and the whole is wrapped in
-    one blob after the header — for all field values -/
-theorem counter_writer_is_reference (p : Counter) :
-    runWrapped (semCounter p) Gen.C05.steps_CounterPack1 = encCounter p := by
-  simp [Gen.C05.steps_CounterPack1, runWrapped, run, interp, wr, wrLit, semCounter, encCounter, encCounterBody,
-    encShorts8]
+  simp [Gen.C05.steps_TextPack, run, interp, wr, semText, S0, Sem.withElem, encTextP, List.flatMap_map,
+    ← flatMap_eq_encMany]
   rfl
 
+def semParam (p : Param) : Sem :=
+  { S0 with
+    hdr := encHdr p.hdr
+    env := fun a => match a with
+      | "Id" => .i p.id
+      | "Request" => .i p.request
+      | "Response" => .i p.response
+      | "table.Size()" => .i p.table.length
+      | _ => .none
+    coll := fun n => match n with
+      | "for this.Keys().HasMoreElements()" => p.table.map (fun kv a => match a with
+          | "Keys().NextString()" => .b kv.1
+          | "table.Get(((this.Keys()).NextString())).(val.Value)" => .v kv.2
+          | _ => .none)
+      | _ => [] }
+
+theorem param_writer_is_reference (p : Param) : run (semParam p) Gen.C05.steps_ParamPack = encParam p := by
+  simp [Gen.C05.steps_ParamPack, run, interp, wr, semParam, S0, Sem.withElem, encParam, List.flatMap_map,
+    ← flatMap_eq_encMany]
+  rfl
+
+/-- event pack: the `Attr.Put` statements fold uuid / escalation / status / type into the attribute map
+    (`event_puts_are_reference`); the count byte and the loop write that map -/
+def semEvent (e : Event) : Sem :=
+  { S0 with
+    hdr := encHdr e.hdr
+    env := fun a => match a with
+      | "Level" => .n e.level
+      | "Title" => .b e.title
+      | "Message" => .b e.message
+      | "Attr.Size()" => .n (foldAttrs e).length
+      | _ => .none
+    cond := fun c => match c with
+      | "this.Uuid != \"\"" => decide (e.uuid ≠ [])
+      | "this.Escalation" => e.escalation
+      | _ => false
+    coll := fun n => match n with
+      | "for _L0 := 0; _L0 < this.Attr.Size(); _L0++" => (foldAttrs e).map (fun kv a => match a with
+          | "Attr.Entries().NextElement().(*hmap.StringKeyLinkedEntry).GetKey()" => .b kv.1
+          | "Attr.Entries().NextElement().(*hmap.StringKeyLinkedEntry).GetValue().(string)" => .b kv.2
+          | _ => .none)
+      | _ => [] }
+
+theorem event_writer_is_reference (e : Event) : run (semEvent e) Gen.C05.steps_EventPack = encEvent e := by
+  simp [Gen.C05.steps_EventPack, run, interp, wr, semEvent, S0, Sem.withElem, encEvent, encEventWire, Event.toWire,
+    List.flatMap_map, ← flatMap_eq_encMany]
+  rfl
+
+/-- the key constant a `Put` names, through the extracted constants -/
+def putKey (k : String) : Bytes := ascii ((Gen.C05.eventKeys.lookup k).getD "")
+
+/-- the value a `Put` writes -/
+def putVal (e : Event) (v : String) : Bytes :=
+  match v with
+  | "Uuid" => e.uuid
+  | "\"true\"" => ascii "true"
+  | "\"false\"" => ascii "false"
+  | "fmt.Sprintf(\"%d\", this.Status)" => decText e.status
+  | "fmt.Sprintf(\"%d\", this.Otype)" => decText e.otype
+  | _ => poison
+
+/-- executing the `Attr.Put` statements of `EventPack.Write` in their order (uuid only when set, escalation as
+    "true"/"false", status and type as decimal text) on the user's attributes gives exactly the reference's
+    folded attribute map — for all events -/
+theorem event_puts_are_reference (e : Event) :
+    (putsOf (semEvent e) Gen.C05.steps_EventPack).foldl (fun a kv => putAttr a (putKey kv.1) (putVal e kv.2)) e.attr
+      = foldAttrs e := by
+  have k1 : putKey "UUID_KEY" = keyUuid := by decide
+  have k2 : putKey "ESCALATION_KEY" = keyEsca := by decide
+  have k3 : putKey "STATUS_KEY" = keyStatus := by decide
+  have k4 : putKey "OTYPE_KEY" = keyOtype := by decide
+  by_cases hu : e.uuid = [] <;> cases he : e.escalation <;>
+    simp [Gen.C05.steps_EventPack, putsOf, semEvent, S0, hu, he, foldAttrs, putVal, k1, k2, k3, k4]
+
+def semHitMap (p : HitMap) : Sem :=
+  { S0 with
+    hdr := encHdr p.hdr
+    coll := fun n => match n with
+      | "for _L0 := 0; _L0 < HITMAP_LENGTH; _L0++" =>
+        ((p.hit.take Gen.C05.hitmapLength).zip (p.error.take Gen.C05.hitmapLength)).map (fun c a => match a with
+          | "Hit[_L0]" => .i c.1
+          | "Error[_L0]" => .i c.2
+          | _ => .none)
+      | _ => [] }
+
+theorem encCells_flatMap (hs es : List Int) :
+    encCells hs es = (hs.zip es).flatMap (fun c => encI 2 c.1 ++ encI 2 c.2) := by
+  induction hs generalizing es with
+  | nil => simp [encCells]
+  | cons h hs ih =>
+    cases es with
+    | nil => simp [encCells]
+    | cons e es => simp [encCells, ih es]
+
+theorem hitmap_writer_is_reference (p : HitMap) : run (semHitMap p) Gen.C05.steps_HitMapPack1 = encHitMap p := by
+  simp [Gen.C05.steps_HitMapPack1, run, interp, wr, wrLit, semHitMap, S0, Sem.withElem, encHitMap, List.flatMap_map,
+    encCells_flatMap, Gen.C05.hitmapLength, hitMapLength]
+
+/-! ### the hash: the loop body of `Hash64` is transcribed and proved to be the reference step -/
+
+theorem hash64_step_is_reference (crc b : Nat) (hc : crc < 18446744073709551616) (hb : b < 256) :
+    evalH Gen.C05.hash64Step crc b = ((hash64Step crc b : Nat) : Int) := by
+  simp only [Gen.C05.hash64Step, evalH]
+  rw [u64_ofNat crc hc, convTo_uint64_ofNat b (by omega), u64_ofNat b (by omega), convTo_uint8_ofNat,
+    u64_convTo_uint64, u64_wrap32 _ (crcTable_lt _ (Nat.mod_lt _ (by decide))), u64_ofNat _ (by omega)]
+  rfl
+
+theorem goFold_eq (bs : Bytes) (c : Nat) (hc : c < 18446744073709551616) (h : WFB bs) :
+    bs.foldl (fun c b => u64 (evalH Gen.C05.hash64Step c b)) c = bs.foldl hash64Step c := by
+  induction bs generalizing c with
+  | nil => rfl
+  | cons b bs ih =>
+    have ⟨hb, hbs⟩ := WFB_cons.mp h
+    simp only [List.foldl_cons]
+    rw [hash64_step_is_reference c b hc hb, u64_ofNat _ (hash64Step_lt c b hc)]
+    exact ih _ (hash64Step_lt c b hc) hbs
+
+/-- the transcribed function — initial register, transcribed step over all bytes from first to last,
+    transcribed final expression, return conversion — is the reference `hash64` -/
+theorem hash64_is_reference (bs : Bytes) (h : WFB bs) :
+    goHash64 Gen.C05.hash64Init Gen.C05.hash64Step Gen.C05.hash64Final Gen.C05.hash64Ret bs = hash64 bs := by
+  unfold goHash64
+  rw [goFold_eq bs _ (by decide) h]
+  have hf := foldl_hash64Step_lt bs Gen.C05.hash64Init (by decide)
+  simp only [Gen.C05.hash64Final, evalH, Gen.C05.hash64Ret]
+  rw [u64_ofNat _ hf, u64_ofNat _ (by decide)]
+  have hx : (List.foldl hash64Step Gen.C05.hash64Init bs ^^^ 18446744073709551615) < 18446744073709551616 :=
+    Nat.xor_lt_two_pow (n := 64) hf (by decide)
+  rw [convTo_int64_ofNat _ hx]
+  rfl
+
+/-- the loop visits every byte once, first to last (`for i := 0; i < len(bytes); i++`, element `bytes[i]`) -/
+theorem hash64_loop_shape :
+    Gen.C05.hash64Shape = ["sz := len(bytes)", "for i := 0; i < sz; i++", "elem bytes[i]"] := by decide
+
+/-- `Hash64Str(s)` is `Hash64` of the bytes of `s` -/
+theorem hash64Str_is_hash64_of_bytes : Gen.C05.hash64StrBody = "Hash64([]byte(_L0))" := by decide
+
+example : goHash64 Gen.C05.hash64Init Gen.C05.hash64Step Gen.C05.hash64Final Gen.C05.hash64Ret (ascii "abcdefg")
+    = 3463164852 := by decide +kernel
 end C05Gen
